@@ -56,6 +56,7 @@ func runC02(c *sim.Ctx) *sim.Violation {
 	c.DistinctStr(presence(a))
 	lengthProbes(c, a)
 	c.Count(fmt.Sprintf("probe.remaining-length-%d-byte-form", gen.SizeClass(len(B))))
+	boundaryProbes(c, B)
 	if len(a.Props) > 0 && (a.Type == ref.PubAck || a.Type == ref.PubRec || a.Type == ref.PubRel || a.Type == ref.PubComp) && a.Reason == 0 {
 		c.Count("probe.ack-with-reason-0-and-properties")
 	}
